@@ -20,7 +20,7 @@ def rawhex(raw):
 
 def act_harness(a):
     k = a[0]
-    if k in ("new", "setnum", "measure", "sample", "threads"):
+    if k in ("new", "setnum", "measure", "sample", "threads", "view"):
         return "%s %d" % (k, a[1])
     if k in ("freq", "samplestats"):
         return "%s %d %d" % (k, a[1], a[2])
@@ -88,6 +88,8 @@ def parse_records(payload):
             out.append(("g", [unhexf(x) for x in t[2:2 + k]], [unhexf(x) for x in t[2 + k:2 + 2 * k]]))
         elif t[0] == "v":
             out.append(("v", int(t[1]), int(t[2])))
+        elif t[0] == "w":
+            out.append(("w", int(t[1]), int(t[2])))
         else:
             out.append(("?", p[:100]))
     return out
@@ -98,7 +100,7 @@ def model_actions(acts, recs):
     Returns (term, expected_record_kinds)."""
     items = []
     ri = 0
-    recs = [r for r in recs if r[0] not in ("t", "o", "v", "f", "s", "g")]
+    recs = [r for r in recs if r[0] not in ("t", "o", "f", "s", "g")]
     for a in acts:
         k = a[0]
         if k == "new":
@@ -107,8 +109,16 @@ def model_actions(acts, recs):
             items.append("AWith %s %s" % (cN(a[1]), cN(a[2])))
         elif k == "raw":
             items.append("ARaw %s %s" % (cN(a[1]), clist([ccomplex(z) for z in a[2]])))
-        elif k in ("threads", "polar", "vreglen", "freq", "seqfreq", "samplestats"):
+        elif k in ("threads", "polar", "freq", "seqfreq", "samplestats"):
             continue
+        elif k == "view":
+            if ri >= len(recs) or recs[ri][0] != "w":
+                break
+            items.append("AView %s" % cN(a[1])); ri += 1
+        elif k == "vreglen":
+            if ri >= len(recs) or recs[ri][0] != "v":
+                break
+            items.append("AViewAll"); ri += 1
         elif k == "apply":
             items.append("AApply %s" % to_coq(a[1]))
         elif k in ("measure", "measureall"):
@@ -158,6 +168,12 @@ def parse_model_records(v):
                 out.append(("p", [float(x) for x in args[0]]))
             elif h == "RAbs":
                 out.append(("b", float(args[0])))
+            elif h == "RView":
+                o = args[0]
+                out.append(("w", 0, 0) if o == "None" else ("w", 1, o[1][0]))
+            elif h == "RViewAll":
+                o = args[0]
+                out.append(("v", None if o == "None" else o[1][0], args[1]))
             elif h == "RStop":
                 out.append(("x", {1: "refused", 2: "mask", 3: "fuel"}.get(args[0], "?")))
     return out
@@ -165,7 +181,7 @@ def parse_model_records(v):
 
 def records_agree(ri, rm, tol=TOL):
     """first disagreement index or None"""
-    ri = [r for r in ri if r[0] not in ("t", "o", "v", "f", "s", "g")]
+    ri = [r for r in ri if r[0] not in ("t", "o", "f", "s", "g")]
     n = max(len(ri), len(rm))
     for k in range(n):
         if k >= len(ri) or k >= len(rm):
@@ -187,6 +203,9 @@ def records_agree(ri, rm, tol=TOL):
                 return k
         elif a[0] == "b":
             if not close(a[1], b[1], tol):
+                return k
+        elif a[0] in ("w", "v"):
+            if tuple(a[1:]) != tuple(b[1:]):
                 return k
         elif a[0] == "x":
             pass
@@ -335,4 +354,102 @@ def oracle_valid_state(acts, recs, tol=1e-7):
             fails.append("panic: %s %s" % (r[1], r[2][:120] if len(r) > 2 else ""))
         elif r[0] == "died":
             fails.append(r[1])
+    return fails
+
+
+# ---------------------------------------------------------------- registers with a past
+
+def lifecycle_prefixes(rng, n):
+    """Construction histories that all end in an n-qubit register, none of them `QReg::new(n)` alone: grown from
+    fewer qubits, shrunk from more, shrunk and grown again, multiplied together from smaller registers, measured.
+    Every statement about "a register" must hold for these too (a cached mask, a re-used buffer or a padding cell
+    that an earlier operation left behind is invisible on a freshly built register).  -> [(label, actions)]"""
+    import gen
+    out = []
+    full = (1 << n) - 1
+
+    def stir(bits):
+        """gates that put weight on the given qubits (and sometimes on everything)"""
+        g = []
+        if bits:
+            sub = (rng.randrange(1, bits + 1) & bits) or bits
+            g.append(("apply", ("x", sub)))
+        if n and rng.random() < 0.6:
+            g.append(("apply", ("h", rng.randrange(1, 1 << n))))
+        if n and rng.random() < 0.4:
+            g.append(("apply", gen.random_gate(rng, n)))
+        return g
+
+    # grown from k < n qubits (inside and across the 8-entry minimum buffer)
+    for k in range(0, n):
+        acts = [("with", k, rng.randrange(1 << k))] if k and rng.random() < 0.5 else [("new", k)]
+        if k and rng.random() < 0.5:
+            acts.append(("apply", ("h", (1 << k) - 1)))
+        acts.append(("setnum", n))
+        out.append(("grow%d" % k, acts + stir(full & ~((1 << k) - 1))))
+    # grown in two steps
+    if n >= 2:
+        out.append(("grow0-1", [("new", 0), ("setnum", 1), ("apply", ("x", 1)), ("setnum", n)] + stir(full & ~1)))
+    # shrunk from n + j qubits holding a spread-out state
+    for j in (1, 2, 4):
+        big = n + j
+        acts = [("with", big, rng.randrange(1 << big)), ("apply", ("h", (1 << big) - 1)), ("setnum", n)]
+        out.append(("shrink%d" % j, acts + (stir(full) if rng.random() < 0.7 else [])))
+    # shrunk below n and grown again, with and without something in between
+    for big in (max(n, 4), n + 1):
+        k = rng.randrange(0, n) if n else 0
+        acts = [("with", big, rng.randrange(1 << big)), ("apply", ("h", (1 << big) - 1)), ("setnum", k)]
+        if k and rng.random() < 0.5:
+            acts.append(("measure", rng.randrange(1, 1 << k)))
+        acts.append(("setnum", n))
+        out.append(("regrow%d" % big, acts + (stir(full) if rng.random() < 0.5 else [])))
+    # a product of smaller registers (both orders, and *=), including the empty register
+    for a in range(0, n + 1):
+        b = n - a
+        sa, sb = gen.random_state(rng, a), gen.random_state(rng, b)
+        how = rng.choice(["tensorr", "tensorl", "mulassign"])
+        out.append(("prod%d" % a, [("raw", a, sa), (how, b, sb)] + (stir(full) if rng.random() < 0.3 else [])))
+    # measured before
+    if n:
+        out.append(("measured", [("with", n, rng.randrange(1 << n)), ("apply", ("h", full)),
+                                 ("measure", rng.randrange(1, 1 << n))] + stir(full)))
+    return out
+
+
+def lifecycle_histories(rng, tier, observe, sizes=(0, 1, 2, 3, 4), threads_frac=0.25):
+    """every construction history x the observations of one property (observe(rng, n) -> actions)"""
+    hs = []
+    for rep in range(1 if tier == "quick" else 6):
+        for n in sizes:
+            for label, pre in lifecycle_prefixes(rng, n):
+                acts = list(pre)
+                if rng.random() < threads_frac:
+                    acts.append(("threads", rng.choice(thread_counts())))
+                hs.append((rng.randrange(1 << 30), acts + observe(rng, n)))
+    return hs
+
+
+def oracle_views(acts, recs):
+    """C20 / C14: the full range of the register's view is 2^n - 1, and a view by a mask exists exactly when the
+    mask lies inside the register (and then lists exactly the mask's bits)."""
+    fails = []
+    views = [a for a in acts if a[0] == "view"]
+    vi = 0
+    n = None
+    for r in recs:
+        if r[0] == "d":
+            n = r[1]
+        elif r[0] == "v":
+            if r[1] != (1 << r[2]) - 1:
+                fails.append("get_vreg()[..] = %d on a register of %d qubits" % (r[1], r[2]))
+            n = r[2]
+        elif r[0] == "w":
+            m = views[vi][1]; vi += 1
+            if n is None:
+                continue
+            inside = (m & ~((1 << n) - 1)) == 0
+            if bool(r[1]) != inside:
+                fails.append("get_vreg_by(%d) on %d qubits: %s" % (m, n, "a view of qubits the register does not have" if r[1] else "refused"))
+            elif r[1] and r[2] != m:
+                fails.append("get_vreg_by(%d)[..] = %d" % (m, r[2]))
     return fails
